@@ -71,7 +71,8 @@ def jobs(tier):
 def requirements(tier):
     req = {"tree:histories": 60000 if tier == "quick" else 900000, "tree:insertion-checks": 300000, "tree:pair-checks": 5000000,
            "graph:histories": 10000, "graph:pair-checks": 200000, "registry:registrations": 100, "registry:probe-comparisons": 10000,
-           "registry:new-frame-roundtrips": 1000, "registry:origin-checks": 30, "registry:nested-orbit-frame": 10}
+           "registry:new-frame-roundtrips": 1000, "registry:origin-checks": 30, "registry:nested-orbit-frame": 10,
+           "registry:name-differs-by-case-only": 10}
     return req
 
 
@@ -298,6 +299,11 @@ def case_registry(ctx, job, idx, rng, st):
     for step in range(n_reg):
         kind = rng.choice(["station", "station", "orbit-none", "orbit-qsw", "orbit-tnw", "body"])
         name = f"R{idx}x{step}"
+        twins = [r.swapcase() for r in registered if r.startswith("R") and r.swapcase() not in registered]
+        if kind != "body" and twins and rng.random() < 0.3:
+            # a NEW name that differs from an existing one only by the case of its letters
+            name = rng.choice(twins)
+            ctx.count("registry:name-differs-by-case-only")
         w = {"scenario": idx, "step": step, "kind": kind, "registered_before": list(registered)}
         try:
             if kind == "station":
